@@ -7,7 +7,9 @@ whose theorems are in lean/TfelVerif/C39/Props.lean. This module also hosts what
 (request generator, answer parser, variant detection).
 """
 import collections
+import json
 import math
+import os
 import random
 import struct
 
@@ -155,8 +157,10 @@ def c39_predicate(sc, a):
                     (k0, "prediction" if got_kind == "pred" else "integration",
                      "with the +100 speed-of-sound flag" if flag else "no flag", got_smt, smt))
     # Strict fails when a variable is out of its bounds
-    if sc["oob"] != "i" and sc["pol"] == "S" and "cb" in ev and a["ret"] != -1:
+    if sc["oob"] != "i" and sc["pol"] == "S" and a["ret"] != -1:
         return ("integrate:policy:strict", "Strict policy, variable out of bounds, return value %d" % a["ret"])
+    if sc["init"] == "o" and "cb" not in ev:
+        return ("integrate:policy:bounds-not-checked", "initialize() succeeded but checkBounds() was not called (policy %s)" % sc["pol"])
     if sc["oob"] != "i" and sc["pol"] != "S" and "cb" in ev and "cbdone" not in ev:
         return ("integrate:policy:" + sc["pol"], "policy %s raised on an out of bounds variable" % sc["pol"])
     fail = scripted_failure(sc, ev)
@@ -338,6 +342,230 @@ def helper_predicate(req, ans):
     return None if ans == "to=" + want else ("getTangentOperator:K2-decoding", "K[2]=%r: %s, documented %s" % (x, ans, want))
 
 
+# ---------------------------------------------------------------- the generated wrapper (T2-style shape tie)
+def cxx_shape(region):
+    """(string literals, code skeleton) of a C++ region, comments and white space removed"""
+    lits, sk, i, n = [], [], 0, len(region)
+    while i < n:
+        c = region[i]
+        if region.startswith("//", i):
+            while i < n and region[i] != "\n":
+                i += 1
+            continue
+        if region.startswith("/*", i):
+            i = region.index("*/", i) + 2
+            continue
+        if c == '"':
+            j = i + 1
+            while region[j] != '"':
+                j += 2 if region[j] == "\\" else 1
+            lits.append(region[i + 1:j])
+            sk.append("S")
+            i = j + 1
+            continue
+        if not c.isspace():
+            sk.append(c)
+        i += 1
+    return lits, "".join(sk)
+
+
+def wrapper_shape():
+    """what GenericBehaviourInterface.cxx emits around mfront::gb::integrate, and the policy getter/setter of
+    BehaviourInterfaceBase.cxx: `int f(mfront_gb_BehaviourData* d){ ...; const auto r = mfront::gb::integrate<Behaviour>(*d,
+    Behaviour::STANDARDTANGENTOPERATOR, <name>_getOutOfBoundsPolicy()); return r; }`, 0/1/2 -> None/Warning/Strict"""
+    src = open(os.path.join(vlib.REPO, "mfront/src/GenericBehaviourInterface.cxx")).read()
+    a = src.index('<< "(mfront_gb_BehaviourData* const d){\\n"')
+    b = src.index("// postprocessings", a)
+    l, s = cxx_shape(src[a:b])
+    src2 = open(os.path.join(vlib.REPO, "mfront/src/BehaviourInterfaceBase.cxx")).read()
+    a = src2.index("void BehaviourInterfaceBase::writeGetOutOfBoundsPolicyFunctionImplementation(")
+    b = src2.index("void BehaviourInterfaceBase::writeSetParametersFunctionsDeclarations(")
+    l2, s2 = cxx_shape(src2[a:b])
+    return {"wrapper": {"literals": l, "skeleton": s}, "policy": {"literals": l2, "skeleton": s2}}
+
+
+def check_wrapper(ck):
+    """the emitted wrapper is not executed here; its emitter must still be the one that was read"""
+    golden = json.load(open(os.path.join(vlib.VERIF, "corpus", "C39", "wrapper_shape.json")))
+    try:
+        cur = wrapper_shape()
+    except (ValueError, OSError, IndexError) as e:
+        ck.violation("tie:wrapper-emitter", "the emitter of the generic wrapper could not be located in mfront/src: %r" % e,
+                     {"error": repr(e)}, False)
+        return False
+    ok = True
+    for part, where in (("wrapper", "mfront/src/GenericBehaviourInterface.cxx (behaviour integration function)"),
+                        ("policy", "mfront/src/BehaviourInterfaceBase.cxx (get/setOutOfBoundsPolicy)")):
+        if cur[part] != golden[part]:
+            ok = False
+            gl, cl = golden[part]["literals"], cur[part]["literals"]
+            diff = [(i, gl[i] if i < len(gl) else None, cl[i] if i < len(cl) else None)
+                    for i in range(max(len(gl), len(cl))) if (gl[i] if i < len(gl) else None) != (cl[i] if i < len(cl) else None)][:5]
+            ck.violation("tie:wrapper-emitter:" + part,
+                         "%s: the code emitted around mfront::gb::integrate changed; the calling convention proved for Integrate.hxx is no longer known to reach the caller unchanged" % where,
+                         {"where": where, "first_differing_literals(index, read, current)": diff,
+                          "skeleton_changed": cur[part]["skeleton"] != golden[part]["skeleton"]}, False)
+    return ok
+
+
+# ---------------------------------------------------------------- end-to-end on a generated behaviour (thorough tier)
+E2E_TAGS = {("pred", "EL"): "11", ("pred", "SEC"): "12", ("pred", "TAN"): "13",
+            ("int", "NO"): "-", ("int", "EL"): "1", ("int", "SEC"): "2", ("int", "TAN"): "3", ("int", "CTO"): "4"}
+
+
+def e2e_factors():
+    # the generated behaviour clamps the user's factors to [minimal_time_step_scaling_factor = 0.1, max] and to the
+    # current one (1 on entry): only values in that range are used, so that rdt = min(1, a priori, a posteriori)
+    return [0.1, 0.5, 0.98, down(0.99), 0.99, up(0.99), 1.0, 2.0]
+
+
+def e2e_requests(rng, n):
+    reqs = []
+    for k0 in k0_values():
+        for pol in (0, 1, 2):
+            reqs.append(dict(k0=k0, pol=pol, T=300.0, ap=1.0, apo=0.5, fail=0))
+    for k0 in (-2.0, 0.0, 4.0, 98.0, 104.0):
+        for pol in (0, 1, 2):
+            for T in (50.0, 100.0, 500.0, 600.0):
+                reqs.append(dict(k0=k0, pol=pol, T=T, ap=1.0, apo=1.0, fail=0))
+        for fail in (1, 2, 3):
+            reqs.append(dict(k0=k0, pol=0, T=300.0, ap=1.0, apo=1.0, fail=fail))
+        for ap in e2e_factors():
+            for apo in e2e_factors():
+                reqs.append(dict(k0=k0, pol=0, T=300.0, ap=ap, apo=apo, fail=0))
+    for _ in range(n):
+        reqs.append(dict(k0=rng.choice(k0_values()) if rng.random() < 0.6 else rng.uniform(-4, 5) + rng.choice([0, 100]),
+                         pol=rng.randrange(3), T=rng.choice([50.0, 300.0, 300.0, 300.0, 600.0]),
+                         ap=rng.choice(e2e_factors()), apo=rng.choice(e2e_factors()),
+                         fail=rng.choice([0, 0, 0, 1, 2, 3])))
+    return reqs
+
+
+def e2e_line(r):
+    return "e2e %s %d %s %s %s %d" % (bits(r["k0"]), r["pol"], bits(r["T"]), bits(r["ap"]), bits(r["apo"]), r["fail"])
+
+
+def e2e_judge(r, ans):
+    """the properties C39 / C40 on one answer of the generated behaviour: list of (property, key, text)"""
+    kv = {}
+    f = ans.split()
+    for t in f:
+        if "=" in t:
+            k, v = t.split("=", 1)
+            kv[k] = v
+    try:
+        ret = int(kv["ret"])
+        rdt = unbits(kv["rdt"])
+        wr = set() if kv["wr"] == "-" else set(kv["wr"].split(","))
+        ktag, vals, warn = kv["ktag"], kv["vals"], int(kv["warn"])
+    except (KeyError, ValueError):
+        return [("C39", "e2e:malformed-answer", "unparsable answer %r" % ans[:200])]
+    out = []
+    flag, kind, smt = doc_decode(r["k0"])
+    oob = not (100.0 <= r["T"] <= 500.0)
+    if ret == -1 and wr & {"tf", "isv", "se", "de"}:
+        stage = {2: "ie", 3: "sos"}.get(r["fail"])
+        out.append(("C40", "integrate:throw-after-export:%s" % stage if stage else "integrate:s1-written-on-failure:e2e",
+                    "generated behaviour: -1 returned with s1.{%s} overwritten (fail mode %d)" % (",".join(sorted(wr & {"tf", "isv", "se", "de"})), r["fail"])))
+    if vals != "ok":
+        out.append(("C39", "e2e:wrong-values:" + vals.split(";")[0], "exported values differ from the behaviour's: " + vals))
+    if kind is None or smt is None:
+        return out
+    if oob and r["pol"] == 2:
+        if ret != -1:
+            out.append(("C39", "integrate:policy:strict", "generated behaviour: Strict, T=%r out of [100:500], %d returned" % (r["T"], ret)))
+        return out
+    if (warn > 0) != (oob and r["pol"] == 1):
+        out.append(("C39", "integrate:policy:warning", "generated behaviour: policy %d, T=%r: %d warnings" % (r["pol"], r["T"], warn)))
+    # failure injected in the generated code
+    fails = (kind == "int" and r["fail"] in (1, 2)) or (r["fail"] == 3 and flag)
+    if fails:
+        if ret != -1:
+            out.append(("C39", "integrate:return-value:failure-ignored:e2e", "generated behaviour: fail mode %d but %d returned" % (r["fail"], ret)))
+        return out
+    if ret == -1:
+        out.append(("C39", "integrate:return-value:spurious-failure", "generated behaviour: -1 returned, nothing failed"))
+        return out
+    want_tag = E2E_TAGS[(kind, smt)]
+    got_tag = ktag
+    if got_tag != want_tag:
+        where = "computePredictionOperator" if kind == "pred" else "integrate"
+        out.append(("C39", "%s:K0-decoding:%s" % (where, "speed-of-sound-flag" if flag else "plain"),
+                    "generated behaviour, K[0]=%r: operator tag %s returned in K, %s expected (%s %s)" % (r["k0"], got_tag, want_tag, kind, smt)))
+    if ("sos" in wr) != flag:
+        out.append(("C39", "integrate:speed-of-sound", "generated behaviour, K[0]=%r: speed of sound %s" % (r["k0"], "missing" if flag else "computed without the flag")))
+    if flag and kv.get("sosrho") != ("0" if kind == "pred" else "1"):
+        out.append(("C39", "integrate:speed-of-sound:density", "generated behaviour: wrong mass density used for the speed of sound"))
+    if kind == "pred":
+        if ret != 1:
+            out.append(("C39", "computePredictionOperator:return-value", "generated behaviour: prediction returned %d" % ret))
+        if wr & {"tf", "isv", "se", "de"}:
+            out.append(("C39", "computePredictionOperator:state-written", "generated behaviour: a prediction request modified s1"))
+    else:
+        exp_rdt = min(1.0, r["ap"], r["apo"])
+        if bits(rdt) != bits(exp_rdt):
+            out.append(("C39", "integrate:rdt", "generated behaviour: rdt=%r, expected %r" % (rdt, exp_rdt)))
+        if ret != (0 if rdt < 0.99 else 1):
+            out.append(("C39", "integrate:return-value:rdt", "generated behaviour: rdt=%r but %d returned" % (rdt, ret)))
+        if not {"tf", "isv", "se", "de"} <= wr:
+            out.append(("C39", "integrate:state-not-exported", "generated behaviour: success but s1 buffers %s not written" % sorted({"tf", "isv", "se", "de"} - wr)))
+    return out
+
+
+def run_e2e(ck, rng, n=2000):
+    """generate harness/C39/VerifE2E.mfront with the mfront of the current tree, compile the emitted code and
+    call the emitted entry point. Returns (requests, answers) or None when the tree has no build directory."""
+    if not os.path.isdir(vlib.BUILD):
+        ck.notes.append("end-to-end run on a generated behaviour skipped: %s has no build tree" % vlib.REPO)
+        return None
+    ck.ensure_targets("mfront", "TFELMaterial", "TFELMath", "TFELUtilities", "TFELException", "TFELNUMODIS")
+    libdirs = set()
+    exe = None
+    for root, _, files in os.walk(vlib.BUILD):
+        for f in files:
+            if f.endswith(".so"):
+                libdirs.add(root)
+            if f == "mfront" and root.endswith(os.path.join("mfront", "src")):
+                exe = os.path.join(root, f)
+    if exe is None:
+        raise vlib.BuildError("mfront executable not found in the build tree", "")
+    gen = ck.path("e2e")
+    os.makedirs(gen, exist_ok=True)
+    p = ck.run([exe, "--interface=generic", os.path.join(vlib.VERIF, "harness", "C39", "VerifE2E.mfront")], cwd=gen,
+               env={"LD_LIBRARY_PATH": ":".join(sorted(libdirs))}, timeout=600)
+    if p.returncode != 0 or not os.path.exists(os.path.join(gen, "src", "VerifE2E-generic.cxx")):
+        raise vlib.BuildError("mfront --interface=generic failed on harness/C39/VerifE2E.mfront", p.stdout[-2000:] + p.stderr[-3000:])
+    binary = ck.cxx("c39e2e", [os.path.join(gen, "src", "VerifE2E.cxx"), os.path.join(gen, "src", "VerifE2E-generic.cxx"), "C39/e2e.cxx"],
+                    includes=[os.path.join(gen, "include"), vlib.REPO + "/mfront/include"], flags=["-Wno-attributes"],
+                    libs=ck.libflags("TFELMaterial", "TFELMath", "TFELUtilities", "TFELException", "TFELNUMODIS"))
+    reqs = e2e_requests(rng, n)
+    q = ck.run([binary], input="".join(e2e_line(r) + "\n" for r in reqs), timeout=900)
+    if q.returncode != 0:
+        ck.violation("e2e-crash", "the generated behaviour driver aborted", {"stderr": q.stderr[-2000:]}, False)
+    return reqs, q.stdout.splitlines()
+
+
+def report_e2e(ck, prop, e2e, reported):
+    """violations of property `prop` seen on the generated behaviour; returns (evaluations, failures)"""
+    if e2e is None:
+        return 0, 0
+    reqs, answers = e2e
+    failing = 0
+    for i, r in enumerate(reqs):
+        a = answers[i] if i < len(answers) else "missing"
+        for (pr, key, what) in e2e_judge(r, a):
+            if pr != prop:
+                continue
+            failing += 1
+            if key in reported:
+                continue
+            reported.add(key)
+            ck.violation(key, "%s: %s" % (SITE, what),
+                         {"site": SITE, "generated_from": "harness/C39/VerifE2E.mfront (mfront --interface=generic of the current tree)",
+                          "request": e2e_line(r), "inputs": r, "answer": a}, True)
+    return len(reqs), failing
+
+
 # ---------------------------------------------------------------- machinery shared with C40
 HARNESS_SOURCES = ["C39/harness.cxx", vlib.REPO + "/src/Material/BoundsCheck.cxx",
                    vlib.REPO + "/src/Material/MaterialException.cxx", vlib.REPO + "/src/Exception/TFELException.cxx",
@@ -395,6 +623,7 @@ def run(ck):
     harness, driver = build(ck)
     res = ck.lean(PROPS, PROPS)
     ck.lean_violations(res)
+    wrapper_ok = check_wrapper(ck)
     reqs, rng = all_requests(ck)
     hreqs = helper_requests(rng, 500 if ck.quick else 20000)
     text = "".join(line(sc) + "\n" for sc in reqs) + "".join(h + "\n" for h in hreqs)
@@ -450,9 +679,16 @@ def run(ck):
         elif a_raw != m_raw:
             report("corr:" + h.split()[0], "correspondence Model.lean vs %s broken on a decoding helper" % SITE,
                    {"request": h, "implementation": a_raw, "model": m_raw}, False)
+    e2e_n, e2e_fail = 0, 0
+    if not ck.quick:
+        e2e = run_e2e(ck, rng)
+        e2e_n, e2e_fail = report_e2e(ck, "C39", e2e, reported)
+        bad_check = ck.leanchecker(PROPS)
+        for (m, msg) in bad_check:
+            ck.violation("leanchecker:" + m, "leanchecker rejects %s" % m, {"log": msg}, False)
     ck.assumptions += [
         "M: Model.lean is tied to Integrate.hxx by differential execution of the real templates instantiated with a scripted mock behaviour (harness/C39/mock.hxx): identical event trace, return value, rdt bits, written buffers, error message on every request",
-        "the mock stands for every generated behaviour: Integrate.hxx only sees a behaviour through the methods and traits the mock scripts; the code generated around it by GenericBehaviourInterface.cxx (wrapper passing the policy) is not executed here",
+        "the mock stands for every generated behaviour: Integrate.hxx only sees a behaviour through the methods and traits the mock scripts; the code generated around it by GenericBehaviourInterface.cxx (wrapper passing d, STANDARDTANGENTOPERATOR and <name>_getOutOfBoundsPolicy(), returning r unchanged; setOutOfBoundsPolicy 0/1/2 -> None/Warning/Strict) is not executed here: its emitter is compared, literal by literal and by code skeleton, with the one that was read (corpus/C39/wrapper_shape.json)",
         "K[0] arithmetic is modelled over an ordered field: `K[0] - 100` is exact in double for 50 < K[0] <= 200 (Sterbenz) and cannot cross a frontier above; NaN/inf requests are covered by the correspondence only",
         "documented table: docs/web/generic-behaviours-interface.md has no K[0] table in this tree; the table used is the one of the property statement (codes -3..4, +100 speed-of-sound flag) and of docs/web/release-notes-3.3.md for K[1], K[2]",
     ]
@@ -461,7 +697,8 @@ def run(ck):
         "evaluations": n, "distinct_nontrivial": len(classes),
         "rule": "requests = corpus + systematic (every K[0] class incl. frontiers +-1ulp x 16 trait sets x 2 operator types; every single scripted fault x traits x K[0]; bounds x policies; scaling factor grid) + seeded random scripts with 0-2 faults; distinct = (sequence of behaviour methods called with operator kind, return value, buffers written, message) classes observed on the implementation; every class is non-trivial (a different path through Integrate.hxx)",
         "exhaustive": False, "model_variant_matched": "%s/%s" % variant, "differing_answers": ndiff,
-        "property_failures_on_implementation": failing,
+        "property_failures_on_implementation": failing, "wrapper_emitter_unchanged": wrapper_ok,
         "return_value_histogram": dict(hist), "failure_kind_histogram": dict(kinds),
         "traces_validated_against_impl": n, "samples": samples,
+        "generated_behaviour_calls": e2e_n, "generated_behaviour_property_failures": e2e_fail,
     })
